@@ -1,6 +1,9 @@
 """Shared rule helpers: term rewriting, ite lifting, equivalence obligations, guard implication, scope checks."""
 from __future__ import annotations
 
+import json
+import os
+
 from . import AnalysisBroken
 from .cond import CondSpace, compare_trees
 from .rf import NotRF, RFContext
@@ -18,7 +21,7 @@ def rewrite(term, fn):
     return fn(t)
 
 
-def lift_ite(term, limit=256):
+def lift_ite(term, limit=1500):
     """Lift embedded ``ite`` nodes to the top: returns a decision tree whose leaves are ite-free."""
     t = strip_all(term)
     return _lift(t, [limit])
@@ -95,6 +98,21 @@ def exc_class(term):
 
 
 # --------------------------------------------------------------------------- equivalence obligations
+# Vocabulary (callables, methods, term shapes) that each comparison met on the tree on which the rule was validated.  A later mismatch that
+# involves vocabulary outside specification + model + this baseline is reported as "cannot decide" instead of a violation: the usual
+# signature of an idiom switch (refactoring) rather than of a changed parameter.  Recorded by tools/record_vocab.py, never written by a check.
+_VOCAB_FILE = os.path.join(os.path.dirname(os.path.abspath(__file__)), "baseline_vocab.json")
+try:
+    with open(_VOCAB_FILE) as _fh:
+        BASELINE_VOCAB = json.load(_fh)
+except (OSError, ValueError):
+    BASELINE_VOCAB = {}
+_RECORDED = {}
+
+# repository functions that the rewrites treat as identities on values; they are never inlined
+IDENTITY_HELPERS = {"pyrepseq.util.ensure_numpy"}
+
+
 class Equiv:
     """Equivalence of a code term and a specification term: decision-table comparison with RF leaf equality."""
 
@@ -105,6 +123,13 @@ class Equiv:
         self.modelled = set(modelled)
         self.identity = identity
         self.last = None
+        self.run = None          # set by bind(): enables inlining of private helpers
+        self.cls = None
+        self.vocab_key = ""
+
+    def bind(self, r, cls=None):
+        self.run, self.cls = r, cls
+        return self
 
     def make_ctx(self):
         return RFContext(vec=self.vec, alias=self.alias, identity=self.identity)
@@ -113,7 +138,11 @@ class Equiv:
         t = strip_all(term)
         for rw in self.rewrites:
             t = rewrite(t, rw)
-        return path_refine(lift_ite(t))
+        t = path_refine(lift_ite(t))
+        # conditionals lifted out of loops may expose plain accumulations: canonicalise once more
+        for rw in self.rewrites:
+            t = rewrite(t, rw)
+        return t
 
     def leaf_eq(self, a, b):
         ha, hb = head(strip(a)), head(strip(b))
@@ -126,6 +155,8 @@ class Equiv:
             self.last = (show(a, 300), show(b, 300))
             return ok
         ctx = self.make_ctx()
+        for rw in self.rewrites:          # leaves may have been refined along the path: normalise once more
+            a, b = rewrite(a, rw), rewrite(b, rw)
         try:
             ra, rb = ctx.rf(a), ctx.rf(b)
         except NotRF as e:
@@ -161,13 +192,61 @@ class Equiv:
                     raise AnalysisBroken(f"call to {n} is outside the modelled vocabulary of this rule; cannot decide equality ({show(x, 100)})")
 
     def compare(self, code, spec, assume=None, alias=None, int_subjects=None):
-        return compare_trees(self.prep(code), self.prep(spec), self.leaf_eq, alias=alias, assume=assume, int_subjects=int_subjects)
+        if self.run is not None:
+            keep = {x[1] for x in walk(strip_all(spec)) if x[0] == "glob" and x[1] in self.run.P.functions} | IDENTITY_HELPERS
+            code = inline_helpers(self.run, code, keep, cls=self.cls)
+        self.code_raw = code
+        self.code_prepped, self.spec_prepped = self.prep(code), self.prep(spec)
+        return compare_trees(self.code_prepped, self.spec_prepped, self.leaf_eq, alias=alias, assume=assume, int_subjects=int_subjects)
+
+    def new_vocabulary(self):
+        """Callables / methods that the (inlined, rewritten) code uses and that neither the specification nor the rule's model knows.
+        A mismatch in the presence of such vocabulary is 'cannot decide', not a violation."""
+        def vocab(t):
+            out = set()
+            for x in walk(t):
+                if x[0] == "call":
+                    f = strip(x[1])
+                    if head(f) == "glob":
+                        out.add(("f", f[1]))
+                    elif head(f) == "attr":
+                        out.add(("m", f[2]))
+                elif x[0] in ("fold", "floop", "comp", "lam", "try", "fstr", "mut", "mutf"):
+                    out.add(("shape", x[0] if x[0] not in ("mut", "mutf") else x[0] + ":" + str(x[1])))
+            return out
+        from .rf import _ELEMENTWISE, _BINFUNCS, _SUMS, _IDENTITY
+        known = {("f", n) for n in list(_ELEMENTWISE) + list(_BINFUNCS) + list(_SUMS) + list(_IDENTITY) + list(self.modelled) + list(self.identity) +
+                 ["numpy.sqrt", "math.sqrt", "numpy.square", "numpy.negative", "numpy.mean", "numpy.maximum", "numpy.minimum", "numpy.power", "numpy.log2", "numpy.log10", "numpy.dot"]}
+        cv, sv = vocab(self.code_prepped), vocab(self.spec_prepped)
+        self.code_vocab = cv | vocab(strip_all(self.code_raw))
+        known |= {("m", m) for m in ("astype", "sum", "mean")} | {("m", m[1:]) for m in self.modelled if m.startswith(".")}
+        base = {tuple(v) for v in BASELINE_VOCAB.get(self.vocab_key, [])}
+        extra = {v for v in cv - sv - known - base if not (v[0] == "f" and v[1].startswith("builtins.") and v[1] in _PURE_BUILTINS)}
+        return sorted(extra)
+
+
+_PURE_BUILTINS = {"builtins." + n for n in ("len", "abs", "min", "max", "sum", "int", "float", "bool", "str", "isinstance", "type", "range", "enumerate", "zip", "list", "tuple", "set", "dict",
+                                             "sorted", "reversed", "any", "all", "map", "filter", "round", "ValueError", "TypeError", "Exception", "NotImplementedError", "AssertionError", "frozenset")}
 
 
 def check_equiv(rep, rule, construct, what, code, spec, where="", eq=None, assume=None, cond_alias=None, key=None, int_subjects=None):
     eq = eq or Equiv()
+    run = getattr(rep, "run", None)
+    if eq.run is None and run is not None:
+        fn = run.P.functions.get(construct)
+        eq.bind(run, cls=fn.cls if fn else None)
+    eq.vocab_key = f"{rule}|{construct}|{key or what}"
     mism, rows = eq.compare(code, spec, assume=assume, alias=cond_alias, int_subjects=int_subjects)
+    if os.environ.get("PRSA_RECORD_VOCAB"):
+        eq.new_vocabulary()
+        _RECORDED[eq.vocab_key] = sorted(eq.code_vocab)
     if mism:
+        extra = eq.new_vocabulary()
+        if extra:
+            # verdict discipline: a difference that involves constructs outside the rule's vocabulary is not decided
+            rep.require(False, f"{construct}: differs from the specification, but uses constructs outside this rule's vocabulary "
+                               f"({', '.join(v[1] if v[0] != 'm' else '.' + v[1] + '()' for v in extra[:6])}); cannot decide [{rule}]")
+            return None
         desc, a, b = mism[0]
         eq.leaf_eq(a, b)
         found, expected = eq.last if eq.last else (show(a, 300), show(b, 300))
@@ -269,7 +348,7 @@ def std_rewrites(ident=("numpy.asarray", "numpy.array", "pyrepseq.util.ensure_nu
             return const(int(t[2]))
         return t
 
-    return [drop_ident, unfloat, canon_call, tuple_of_items, dict_rewrite, filter_idempotent, canon_binders]
+    return [drop_ident, unfloat, small_rewrites, canon_call, tuple_of_items, dict_rewrite, filter_idempotent, canon_folds, small_rewrites, canon_binders]
 
 
 # --------------------------------------------------------------------------- loop-closed terms
@@ -325,6 +404,7 @@ def compare_function(r, rule, qual, spec_src, what, fname=None, eq=None, spec_mo
     if close:
         code, spec = close_loops(s, code), close_loops(sp, spec)
     eq = eq or Equiv(rewrites=std_rewrites())
+    eq.bind(r, cls=s.func.cls)
     return check_equiv(r.rep, rule, qual, what, code, spec, where_of(r.P, s.func, s.func.node), eq=eq, assume=assume, key=key, cond_alias=cond_alias)
 
 
@@ -343,3 +423,223 @@ def path_refine(tree, guards=()):
             if head(a) == "cmp" and a[1] in ("isnot", "!=") and not p and is_const(strip(a[3]), None) and not is_const(strip(a[2])):
                 m[strip(a[2])] = NONE
     return subst(tree, m) if m else tree
+
+
+
+# --------------------------------------------------------------------------- helper inlining
+def inline_helpers(r, term, keep=(), cls=None, depth=3):
+    """Replace calls to repository functions that the specification does not name (private helpers introduced by a refactoring)
+    by their loop-closed return terms, parameters substituted; methods called on ``self`` are resolved through ``cls``."""
+    P, A = r.P, r.A
+    keep = set(keep)
+
+    def go(t, d):
+        if d <= 0 or not isinstance(t, tuple):
+            return t
+        if head(t) is None:
+            return tuple(go(x, d) for x in t)
+        t2 = tuple(go(x, d) if isinstance(x, tuple) else x for x in t)
+        if head(t2) == "call":
+            f = strip(t2[1])
+            callee, selft = None, None
+            if head(f) == "glob" and f[1] in P.functions and f[1] not in keep:
+                callee = f[1]
+            elif head(f) == "attr" and strip(f[1]) == ("param", "self") and cls:
+                m = P.find_method(cls, f[2])
+                if m and m not in keep and f[2].startswith("_") and not f[2].startswith("__"):
+                    callee, selft = m, ("param", "self")
+            if callee:
+                cs = A.summary(callee)
+                if cs.is_generator:
+                    return t2
+                bind = A.bind_call(cs, t2, self_term=selft)
+                if bind is not None:
+                    body = close_loops(cs, cs.ret)
+                    return go(subst(body, bind), d - 1)
+        return t2
+    return go(term, depth)
+
+
+
+# --------------------------------------------------------------------------- small semantic rewrites
+def _is_assert_raise(t):
+    t = strip(t)
+    return head(t) == "raise" and head(strip(t[1])) == "call" and strip(strip(t[1])[1]) == ("glob", "builtins.AssertionError")
+
+
+def small_rewrites(t):
+    from .ssa import apply_lam
+    h = head(t)
+    if h == "call":
+        f = strip(t[1])
+        # (f if c else g)(args)  ->  f(args) if c else g(args), lambdas beta-reduced
+        if head(f) == "ite":
+            a = small_rewrites(("call", f[2], t[2], t[3]))
+            b = small_rewrites(("call", f[3], t[2], t[3]))
+            return ("ite", f[1], a, b)
+        if head(f) == "lam":
+            r = apply_lam(f, t[2], dict(t[3]))
+            if r is not None:
+                return r
+        if head(f) == "glob":
+            n = f[1]
+            if n in ("builtins.min", "builtins.max") and len(t[2]) == 2 and not t[3]:
+                a, b = t[2]
+                return ("ite", ("cmp", "<=", a, b), a, b) if n.endswith("min") else ("ite", ("cmp", ">=", a, b), a, b)
+            if n == "numpy.logical_not" and len(t[2]) == 1 and not t[3]:
+                return ("un", "~", t[2][0])
+            if n == "numpy.dot" and len(t[2]) == 2 and not t[3]:
+                return ("call", ("glob", "numpy.sum"), (("bin", "*", t[2][0], t[2][1]),), ())
+            if n == "builtins.getattr" and len(t[2]) == 2 and is_const(t[2][1]) and isinstance(t[2][1][2], str):
+                return ("attr", t[2][0], t[2][1][2])
+        return t
+    if h == "bin" and t[1] == "+":
+        if is_const(t[3], ""):
+            return t[2]
+        if is_const(t[2], ""):
+            return t[3]
+        return t
+    if h == "ite":
+        # assertions are internal consistency checks: compare behaviour on the paths where they hold
+        if _is_assert_raise(t[3]):
+            return t[2]
+        if _is_assert_raise(t[2]):
+            return t[3]
+        if t[2] == t[3]:
+            return t[2]
+        return t
+    if h == "item":
+        b = strip(t[1])
+        if head(b) == "ite":
+            return ("ite", b[1], small_rewrites(("item", b[2], t[2])), small_rewrites(("item", b[3], t[2])))
+        if head(b) == "tuple" and isinstance(t[2], int) and t[2] < len(b[1]):
+            return b[1][t[2]]
+        # unpacking a comprehension over a literal tuple:  a, b = (f(x) for x in (A, B))
+        if head(b) == "comp" and len(b[3]) == 1 and not b[3][0][1] and isinstance(t[2], int):
+            elem = b[3][0][0]
+            it = strip(elem[3])
+            if head(it) in ("tuple", "list") and t[2] < len(it[1]):
+                return subst(b[2], {elem: it[1][t[2]]})
+        return t
+    if h == "sub":
+        b, k = strip(t[1]), strip(t[2])
+        if head(b) == "tuple" and is_const(k) and isinstance(k[2], int) and -len(b[1]) <= k[2] < len(b[1]):
+            return b[1][k[2]]
+        if head(b) == "ite" and is_const(k):
+            return ("ite", b[1], small_rewrites(("sub", b[2], t[2])), small_rewrites(("sub", b[3], t[2])))
+        # dispatch table:  {k1: v1, k2: v2}[key]  ->  v1 if key == k1 else v2 ...
+        if head(b) == "dict" and b[1] and all(kk != ("dictstar",) for kk, _ in b[1]) and len(b[1]) <= 8:
+            if is_const(k) and all(is_const(kk) for kk, _ in b[1]):
+                for kk, vv in b[1]:
+                    if kk == k:
+                        return vv
+                return t
+            out = ("raise", ("call", ("glob", "builtins.KeyError"), (), ()))
+            for kk, vv in reversed(b[1]):
+                out = ("ite", ("cmp", "==", t[2], kk), vv, out)
+            return out
+        return t
+    if h == "cmp" and t[1] in ("==", "!=") and head(strip(t[2])) == "tuple" and head(strip(t[3])) == "tuple" and len(strip(t[2])[1]) == len(strip(t[3])[1]):
+        parts = tuple(("cmp", "==", a, b) for a, b in zip(strip(t[2])[1], strip(t[3])[1]))
+        e = parts[0] if len(parts) == 1 else ("and", parts)
+        return e if t[1] == "==" else ("un", "not", e)
+    if h == "cmp" and t[1] in ("==", "is") and is_const(strip(t[3]), True) and head(strip(t[2])) in ("cmp", "and", "or", "un"):
+        return t[2]
+    return t
+
+
+def canon_folds(t):
+    """Loops that only accumulate are comprehensions; search loops are any() / all()."""
+    h = head(t)
+    if h == "fold" and t[1] == "for" and not t[6]:
+        d, it, init, step = t[2], t[3], strip(t[4]), strip(t[5])
+        acc = ("acc", d, 0)
+        elem = ("elem", d, it)
+        cid = ("#fold", d, repr(it)[:40])
+
+        def to_comp(kind, x, conds):
+            ce = ("citer", cid, 0, it)
+            m = {elem: ce}
+            if any(y == acc or (head(y) == "acc" and y[1] == d) for y in walk(x)) or any(y == acc for c in conds for y in walk(c)):
+                return None
+            return ("comp", kind, subst(x, m), ((ce, tuple(subst(c, m) for c in conds)),), cid)
+
+        def split(stp, conds):
+            """[(conds, element)] appended along the paths of one iteration, or None."""
+            stp = strip(stp)
+            if stp == acc:
+                return []
+            if head(stp) == "ite":
+                a, b = split(stp[2], conds + (stp[1],)), split(stp[3], conds + (("un", "not", stp[1]),))
+                if a is None or b is None:
+                    return None
+                return a + b
+            if head(stp) == "mut" and stp[1] in ("append", "add") and strip(stp[2]) == acc and len(stp[3]) == 1 and not stp[4]:
+                return [(conds, stp[3][0])]
+            if head(stp) == "bin" and stp[1] == "+" and strip(stp[2]) == acc and head(strip(stp[3])) == "list" and len(strip(stp[3])[1]) == 1:
+                return [(conds, strip(stp[3])[1][0])]
+            return None
+        empty_list = head(init) == "list" and not init[1]
+        empty_set = (head(init) == "set" and not init[1]) or (head(init) == "call" and strip(init[1]) == ("glob", "builtins.set") and not init[2])
+        if empty_list or empty_set:
+            parts = split(step, ())
+            if parts is not None and len(parts) == 2 and len(parts[0][0]) == 1 and parts[1][0] == (("un", "not", parts[0][0][0]),):
+                # the same append on both sides of a condition: one unconditional element
+                parts = [((), ("ite", parts[0][0][0], parts[0][1], parts[1][1]))]
+            if parts is not None and len(parts) == 1:
+                conds, x = parts[0]
+                c = to_comp("list" if empty_list else "set", x, conds)
+                if c is not None:
+                    return c
+        # string accumulation  s = ''; s += piece   ->  ''.join([...])
+        if is_const(init, ""):
+            pieces = _str_pieces(step, acc)
+            if pieces is not None and pieces:
+                conds, x = pieces
+                c = to_comp("list", x, conds)
+                if c is not None:
+                    return ("call", ("attr", const(""), "join"), (c,), ())
+        return t
+    if h == "floop" and t[1] == "for":
+        d, it, body, rest = t[2], t[3], strip(t[4]), strip(t[5])
+        elem = ("elem", d, it)
+        cid = ("#fold", d, repr(it)[:40])
+        ce = ("citer", cid, 0, it)
+        if head(body) == "ite" and strip(body[3]) == ("next",) and is_const(strip(body[2])) and is_const(rest) and isinstance(strip(body[2])[2], bool) and isinstance(rest[2], bool) \
+                and strip(body[2])[2] != rest[2]:
+            cond = subst(body[1], {elem: ce})
+            if strip(body[2])[2]:
+                return ("call", ("glob", "builtins.any"), (("comp", "list", cond, ((ce, ()),), cid),), ())
+            return ("call", ("glob", "builtins.all"), (("comp", "list", ("un", "not", cond), ((ce, ()),), cid),), ())
+        return t
+    if h == "comp" and t[1] == "gen":
+        return ("comp", "list", t[2], t[3], t[4])
+    return t
+
+
+def _str_pieces(step, acc):
+    """step == acc + x (possibly guarded by a single skip condition)  ->  (conds, x)."""
+    step = strip(step)
+    if head(step) == "ite":
+        if strip(step[2]) == acc:
+            r = _str_pieces(step[3], acc)
+            return None if not r else ((("un", "not", step[1]),) + r[0], r[1])
+        if strip(step[3]) == acc:
+            r = _str_pieces(step[2], acc)
+            return None if not r else ((step[1],) + r[0], r[1])
+        return None
+    parts = []
+
+    def flat(x):
+        x = strip(x)
+        if head(x) == "bin" and x[1] == "+":
+            flat(x[2]); flat(x[3])
+        else:
+            parts.append(x)
+    flat(step)
+    if parts and parts[0] == acc and len(parts) >= 2 and not any(p == acc for p in parts[1:]):
+        x = parts[1]
+        for p_ in parts[2:]:
+            x = ("bin", "+", x, p_)
+        return ((), x)
+    return None
